@@ -3,6 +3,7 @@ package rules
 import (
 	"fmt"
 	"go/build/constraint"
+	"go/token"
 	"go/types"
 	"math/big"
 	"os"
@@ -446,6 +447,13 @@ func c19Equiv(c *Ctx, asm, pure *load.Program) {
 				c.R.Unknown("C19-2", key, pos, "reference run incomplete: "+r.Problem())
 				continue
 			}
+			// the assembly cannot panic: neither may the portable twin, whatever the table holds (the table entries are
+			// raw coordinates whose validity flag is never set)
+			if len(r.Ex.Panics) > 0 {
+				p0 := r.Ex.Panics[0]
+				c.R.Fail("C19-2", key+"/no-panic", PosStr(pure, p0.Pos), fmt.Sprintf("the portable routine can panic (%s) when {%s}; the assembly routine never does", p0.Msg, GuardString(p0.Guard)))
+				continue
+			}
 			mismatch := ""
 			for ci, cn := range sp.coords {
 				fi := FieldIndex(pure, models.Mod, sp.tblType, cn)
@@ -571,25 +579,153 @@ func c19CallSites(c *Ctx, prog *load.Program) {
 				}
 				n++
 				idx := call.Common().Args[2]
-				good := false
-				if cv, ok := idx.(*ssa.Convert); ok {
-					if bo, ok := cv.X.(*ssa.BinOp); ok {
-						if b, isB := bo.X.Type().Underlying().(*types.Basic); isB && b.Kind() == types.Uint8 {
-							if k, isC := bo.Y.(*ssa.Const); isC {
-								switch bo.Op.String() {
-								case ">>":
-									good = k.Int64() >= 4
-								case "&":
-									good = k.Int64() <= 15
-								}
-							}
-						}
-					}
-				}
-				c.R.Decide(good, "C19-5", fmt.Sprintf("window-is-nibble/%s#%d", fn.Name(), n), PosStr(prog, call.Pos()), "index is a 4-bit window of a byte (< 16 < 2^32)", "lookup index is not provably a 4-bit window")
+				// the equivalence of the two lookups is established for the indices 0..15 (rule C19-2); beyond that the
+				// 32-bit lane comparison of the assembly and the 64-bit comparison of the portable routine may differ.
+				// A small range analysis bounds the index at every call site.
+				bound, known := ssaUpperBound(prog, idx, 0)
+				good := known && bound <= 15
+				c.R.Decide(good, "C19-5", fmt.Sprintf("window-is-nibble/%s#%d", fn.Name(), n), PosStr(prog, call.Pos()), fmt.Sprintf("index <= %d: a 4-bit window (range analysis of the index expression)", bound), fmt.Sprintf("lookup index is not provably a 4-bit window (bound %d, known %v)", bound, known))
 			}
 		}
 	}
+}
+
+// ssaUpperBound: an upper bound of an unsigned SSA value from its type, masks, shifts, conversions, phis and - for
+// parameters of functions that are only called directly - the arguments at every call site.
+func ssaUpperBound(prog *load.Program, v ssa.Value, depth int) (uint64, bool) {
+	typeMax := func(t types.Type) (uint64, bool) {
+		if b, ok := t.Underlying().(*types.Basic); ok {
+			switch b.Kind() {
+			case types.Uint8:
+				return 1<<8 - 1, true
+			case types.Uint16:
+				return 1<<16 - 1, true
+			case types.Uint32:
+				return 1<<32 - 1, true
+			case types.Bool:
+				return 1, true
+			}
+		}
+		return 0, false
+	}
+	if depth > 6 {
+		return typeMax(v.Type())
+	}
+	best, have := typeMax(v.Type())
+	tighten := func(b uint64, ok bool) {
+		if ok && (!have || b < best) {
+			best, have = b, true
+		}
+	}
+	switch x := v.(type) {
+	case *ssa.Const:
+		if x.Value != nil {
+			if u := x.Uint64(); x.Int64() >= 0 {
+				return u, true
+			}
+		}
+	case *ssa.Convert:
+		tighten(ssaUpperBound(prog, x.X, depth+1))
+	case *ssa.ChangeType:
+		tighten(ssaUpperBound(prog, x.X, depth+1))
+	case *ssa.BinOp:
+		switch x.Op.String() {
+		case "&":
+			tighten(ssaUpperBound(prog, x.X, depth+1))
+			tighten(ssaUpperBound(prog, x.Y, depth+1))
+		case ">>":
+			if k, isC := x.Y.(*ssa.Const); isC && k.Value != nil && k.Int64() >= 0 && k.Int64() < 64 {
+				if b, ok := ssaUpperBound(prog, x.X, depth+1); ok {
+					tighten(b>>uint(k.Int64()), true)
+				}
+			}
+		case "%":
+			if k, isC := x.Y.(*ssa.Const); isC && k.Value != nil && k.Int64() > 0 {
+				tighten(uint64(k.Int64())-1, true)
+			}
+		}
+	case *ssa.Phi:
+		var m uint64
+		all := true
+		for _, e := range x.Edges {
+			if e == ssa.Value(x) {
+				continue
+			}
+			b, ok := ssaUpperBound(prog, e, depth+1)
+			if !ok {
+				all = false
+				break
+			}
+			if b > m {
+				m = b
+			}
+		}
+		if all {
+			tighten(m, true)
+		}
+	case *ssa.UnOp:
+		// a load: the element type bounds it (already in typeMax)
+	case *ssa.Parameter:
+		fn := x.Parent()
+		pi := -1
+		for i, p := range fn.Params {
+			if p == x {
+				pi = i
+			}
+		}
+		if pi < 0 || token.IsExported(fn.Name()) && fn.Parent() == nil && fn.Signature.Recv() == nil {
+			break
+		}
+		var m uint64
+		sites, all := 0, true
+		for _, g := range ModuleFuncs(prog) {
+			for _, b := range g.Blocks {
+				for _, in := range b.Instrs {
+					call, isCall := in.(ssa.CallInstruction)
+					if !isCall {
+						// the function used as a value (other than as the operand of a closure that is only called)
+						if mc, isMC := in.(*ssa.MakeClosure); isMC && mc.Fn == ssa.Value(fn) {
+							continue
+						}
+						for _, op := range in.Operands(nil) {
+							if op != nil && *op == ssa.Value(fn) {
+								all = false
+							}
+						}
+						continue
+					}
+					com := call.Common()
+					target := com.StaticCallee()
+					if target == nil {
+						if mc, isMC := com.Value.(*ssa.MakeClosure); isMC {
+							target, _ = mc.Fn.(*ssa.Function)
+						}
+					}
+					if target != fn {
+						continue
+					}
+					sites++
+					ai := pi
+					if com.IsInvoke() || ai >= len(com.Args) {
+						all = false
+						continue
+					}
+					bd, ok := ssaUpperBound(prog, com.Args[ai], depth+1)
+					if !ok {
+						all = false
+						continue
+					}
+					if bd > m {
+						m = bd
+					}
+				}
+			}
+		}
+		if all && sites > 0 {
+			tighten(m, true)
+		}
+	}
+	return best, have
 }
 
 // c19AffineOutZero: the only caller of lookupAffinePoint passes a fresh zero-valued local as `out`.
